@@ -92,6 +92,26 @@ class Codec(object):
 
 # --------------------------------------------------------------------------
 
+class _HostInt(int):
+    pass
+
+
+class _HostFloat(float):
+    pass
+
+
+class _HostStr(str):
+    pass
+
+
+class _HostDateTime(datetime.datetime):
+    pass
+
+
+class _HostList(list):
+    pass
+
+
 class ChannelDiff(Exception):
     """raised out of Env.ev (through the oracle) when two delivery channels disagree; the runner turns it into a failure"""
 
@@ -183,6 +203,51 @@ class Env(object):
             self._channel_check(formula, vars, funcs, r)
         return r
 
+    # -- host types -------------------------------------------------------------
+    def _subclass_check(self, formula, vars, funcs, r):
+        """A number is a number whatever class the host uses for it: numpy.float64, a Money(float), an IntEnum, a rich-text
+        str, a pandas Timestamp are instances of SUBCLASSES of float / int / str / datetime (and a row may be a list subclass).
+        The same evaluation with every bound value re-typed as a trivial subclass must give the same outcome."""
+        changed = [False]
+
+        def retype(v, depth=0):
+            if isinstance(v, bool) or v is None:
+                return v
+            t = type(v)
+            if t is int:
+                changed[0] = True
+                return _HostInt(v)
+            if t is float:
+                changed[0] = True
+                return _HostFloat(v)
+            if t is str:
+                changed[0] = True
+                return _HostStr(v)
+            if t is datetime.datetime:
+                changed[0] = True
+                return _HostDateTime(v.year, v.month, v.day, v.hour, v.minute, v.second, v.microsecond, v.tzinfo)
+            if t is list and depth < 4:
+                changed[0] = True
+                return _HostList(retype(x, depth + 1) for x in v)
+            return v
+        vars2 = dict((k, retype(v)) for k, v in vars.items())
+        if not changed[0]:
+            return
+        saved, self.channels = self.channels, 0
+        try:
+            o2 = self.evo(formula, vars2, funcs, None)
+        finally:
+            self.channels = saved
+        o1 = self.out(r)
+        # numbers within the usual tolerance: the interpreter itself sums exact floats with compensation and instances of
+        # subclasses without (a last-bit difference that is not the library's)
+        if not same_value(o1, o2):
+            raise ChannelDiff(fail(
+                'the same values as instances of subclasses give a different result: %s with variables %s gives %r, but with every '
+                'number / text / date-time / list an instance of a trivial subclass of float, int, str, datetime, list (what '
+                'numpy.float64, an IntEnum, a rich-text str or a pandas Timestamp are) it gives %r' % (
+                    formula, dict((k, enc(v)) for k, v in vars.items()), o1, o2), o1, o2))
+
     # -- delivery channels ----------------------------------------------------
     channels = 0        # N > 0: of every N evaluations that bind variables, one is repeated with the values handed in by
                         # the cell/range listeners and one with the values returned by custom functions (chosen by a hash
@@ -197,9 +262,11 @@ class Env(object):
             key = (formula + repr(sorted((k, repr(enc(v))) for k, v in vars.items()))).encode('utf-8', 'surrogatepass')
         except Exception:
             return
-        pick = zlib.crc32(key) % max(2, self.channels)
-        if pick > 1:
+        pick = zlib.crc32(key) % max(3, self.channels)
+        if pick > 2:
             return
+        if pick == 2:
+            return self._subclass_check(formula, vars, funcs, r)
         names = sorted(vars, key=len, reverse=True)
         how = 'cell/range listener' if pick == 0 else 'custom function'
         repl, cells2, funcs2 = {}, {}, dict(funcs)
